@@ -56,11 +56,23 @@ Proof.
   exists a, b, r. split; [reflexivity|]. cbn [all_digits] in A. apply andb_prop in A. tauto.
 Qed.
 
+Lemma forallb_is_digit s : forallb is_digit s = all_digits s.
+Proof. induction s as [|x s IH]; cbn [forallb all_digits]; [reflexivity|]. rewrite IH. reflexivity. Qed.
+
+(* the number filter: "r" and one or more digits, nothing else *)
+Lemma filter_num_spec off infix :
+  filter_infix off IFNum infix = true <-> exists ds, infix = r_char :: ds /\ ds <> [] /\ all_digits ds = true.
+Proof.
+  unfold filter_infix. split.
+  - destruct infix as [|a [|d ds]]; try discriminate. intros H. apply andb_prop in H. destruct H as [Ha Hd].
+    apply N.eqb_eq in Ha. subst a. rewrite forallb_is_digit in Hd. exists (d :: ds). split; [reflexivity|]. split; [discriminate | exact Hd].
+  - intros [ds [-> [Hne Hd]]]. destruct ds as [|d ds]; [congruence|]. rewrite forallb_is_digit, Hd. reflexivity.
+Qed.
+
 Lemma filter_num_infix off i : filter_infix off IFNum (number_infix i) = true.
 Proof.
-  rewrite number_infix_digs. destruct (digs_cons i) as [a [b [r [E Ha]]]]. rewrite E.
-  pose proof (digs_length i) as L. rewrite E in L. destruct r as [|c r]; [cbn [length] in L; lia|].
-  cbn [filter_infix]. rewrite N.eqb_refl, Ha. reflexivity.
+  rewrite number_infix_digs. apply filter_num_spec. exists (digs i). split; [reflexivity|]. split; [|apply digs_all].
+  destruct (digs_cons i) as [a [b [r [E _]]]]. rewrite E. discriminate.
 Qed.
 
 Lemma number_infix_no_dot i : no_dot (number_infix i).
@@ -191,8 +203,8 @@ Proof.
   unfold qf. destruct (infix_candidate (fsfx (c_spec c)) o_sfx (fixed0 c) (cname c)) as [infix|] eqn:E; [|reflexivity].
   apply infix_candidate_prefix in E. destruct E as [y E]. rewrite cname_shape in E.
   apply app_inv_head in E. unfold cur_infix in E. cbn [app] in E.
-  destruct infix as [|a [|b [|c0 r]]]; try reflexivity. cbn [app] in E.
-  injection E as _ E _. subst b. cbn [filter_infix]. rewrite andb_false_r. reflexivity.
+  destruct infix as [|a [|b r]]; try reflexivity. cbn [app] in E.
+  injection E as _ E _. subst b. cbn [filter_infix forallb]. rewrite andb_false_r. reflexivity.
 Qed.
 
 Lemma qf_rname off c i : qf off (fsfx (c_spec c)) (fixed0 c) IFNum (fsfx (c_spec c)) (rname c i) = true.
